@@ -68,15 +68,15 @@ a1!(c01_q_a1_l1_d1, 1, 1);
 a1!(c01_q_a1_l1_d3, 1, 3);
 a1!(c01_t_a1_l2_d2, 2, 2);
 a1!(c01_t_a1_l3_d1, 3, 1);
-a1!(c01_t_a1_l2_d5, 2, 5);
-a1!(c01_t_a1_l3_d7, 3, 7);
-a1!(c01_t_a1_l0_d7, 0, 7);
-a1!(c01_t_a1_l1_d7, 1, 7);
-a1!(c01_t_a1_l2_d7, 2, 7);
-a1!(c01_t_a1_l3_d4, 3, 4);
-a1!(c01_t_a1_l3_d5, 3, 5);
-a1!(c01_t_a1_l3_d6, 3, 6);
-a1!(c01_t_a1_l1_d9, 1, 9);
+a1!(c01_x_a1_l2_d5, 2, 5);
+a1!(c01_x_a1_l3_d7, 3, 7);
+a1!(c01_x_a1_l0_d7, 0, 7);
+a1!(c01_x_a1_l1_d7, 1, 7);
+a1!(c01_x_a1_l2_d7, 2, 7);
+a1!(c01_x_a1_l3_d4, 3, 4);
+a1!(c01_x_a1_l3_d5, 3, 5);
+a1!(c01_x_a1_l3_d6, 3, 6);
+a1!(c01_x_a1_l1_d9, 1, 9);
 
 /// Accept/reject boundary on arbitrary bytes of length N: accepted iff [A-Za-z]*[0-9]+ with a non-zero row; never a panic.
 fn a1_arbitrary<const N: usize>() {
@@ -138,12 +138,12 @@ fn c01_t_a1_arbitrary_6() {
 }
 #[kani::proof]
 #[kani::unwind(10)]
-fn c01_t_a1_arbitrary_7() {
+fn c01_x_a1_arbitrary_7() {
     a1_arbitrary::<7>()
 }
 #[kani::proof]
 #[kani::unwind(11)]
-fn c01_t_a1_arbitrary_8() {
+fn c01_x_a1_arbitrary_8() {
     a1_arbitrary::<8>()
 }
 
